@@ -28,7 +28,7 @@ Per field (namespace GV.C08gen.<field>), for ALL byte arrays / slices and ALL ca
 * `bigEndian_PutElement_spec`, `littleEndian_PutElement_spec`: the bytes written are `Conv.toBytesBE/LE Bytes (fromMont (val z))`;
 * `bigEndian_Element_reject / _accept / _err_iff / _model` (and littleEndian): error IFF value >= q, otherwise the canonical Montgomery
   element of the value; the hand model `Conv.elementBE/LE` is the generated decoder followed by `fromMont`;
-* `bigEndian_roundtrip`, `bigEndian_roundtrip'` (and littleEndian): Element (PutElement z) = (z, nil); PutElement (Element b) = b when accepted;
+* `bigEndian_roundtrip`, `bigEndian_roundtrip_inv` (and littleEndian): Element (PutElement z) = (z, nil); PutElement (Element b) = b when accepted;
 * `Bytes_spec`, `SetBytesCanonical_eq / _spec / _model`, `SetBytes_spec` (fast path on canonical Bytes-long input, the PARAMETER
   `setBigIntBE e` on every other input), `SetBytes_lenient` (with the parameter specified as be(e) mod q: = `Conv.setBytes`);
 * `Bits_spec`, `Uint64_spec`, `FitsOnOneWord_spec`, `IsUint64_spec`, `SetUint64_spec`.
